@@ -43,6 +43,8 @@ Inductive wpc :=
 | WSpawned              (* old only: thread created, fetch_add not yet executed *)
 | WRun (j : nat)        (* holds closure j, about to call f.run()               *)
 | WRunning (j : nat)    (* inside f.run()                                       *)
+| WSent (d j : nat)     (* the result of job j is in submitter d's completed channel;
+                           about to call waker.wake() of d's driver             *)
 | WLoop                 (* between jobs: about to call recv_timeout             *)
 | WRecv                 (* blocked in recv_timeout: a waiting receiver          *)
 | WExiting              (* recv_timeout returned Err(Timeout); guard not yet dropped *)
@@ -60,10 +62,11 @@ Record st := mk_st {
   disp : list dpc;
   work : list wpc;
   jobs : list job;
-  completed : list (nat * nat * bool)   (* completed channels: (submitter, job, result is the panic error) *)
+  completed : list (nat * nat * bool);  (* completed channels: (submitter, job, result is the panic error) *)
+  wakes : list (nat * nat)              (* waker.wake() calls: (submitter whose driver is woken, job) *)
 }.
 
-Definition init (l d : nat) : st := mk_st l 0 (repeat DIdle d) [] [] [].
+Definition init (l d : nat) : st := mk_st l 0 (repeat DIdle d) [] [] [] [].
 
 Inductive ev :=
 | ECall (d : nat) (p : bool)   (* submitter d builds a closure (job id = number of jobs so far) and calls dispatch *)
@@ -78,7 +81,8 @@ Inductive ev :=
 | ESendBlock (d : nat)         (* old: blocking send finds no receiver and waits                   *)
 | EWorkerInc (w : nat)         (* old: counter.fetch_add(1) in the worker                          *)
 | EStart (w : nat)             (* f.run() starts                                                   *)
-| EEnd (w : nat)               (* f.run() returns: result (or caught panic) sent to the submitter   *)
+| EEnd (w : nat)               (* the operation returns: completed.send(Entry(result or caught panic)) *)
+| EWake (w : nat)              (* waker.wake(): the submitter's driver is woken, unconditionally    *)
 | ERecvEnter (w : nat)         (* recv_timeout: nothing offered, the worker waits                  *)
 | ERecvTake (w d : nat)        (* old: recv_timeout takes the closure of sender d blocked in send  *)
 | ETimeout (w : nat)           (* recv_timeout returns Err(Timeout)                                *)
@@ -92,19 +96,21 @@ Fixpoint upd {A} (l : list A) (k : nat) (x : A) : list A :=
   end.
 
 Definition set_d (s : st) (d : nat) (p : dpc) : st :=
-  mk_st (limit s) (counter s) (upd (disp s) d p) (work s) (jobs s) (completed s).
+  mk_st (limit s) (counter s) (upd (disp s) d p) (work s) (jobs s) (completed s) (wakes s).
 Definition set_w (s : st) (w : nat) (p : wpc) : st :=
-  mk_st (limit s) (counter s) (disp s) (upd (work s) w p) (jobs s) (completed s).
+  mk_st (limit s) (counter s) (disp s) (upd (work s) w p) (jobs s) (completed s) (wakes s).
 Definition set_counter (s : st) (c : nat) : st :=
-  mk_st (limit s) c (disp s) (work s) (jobs s) (completed s).
+  mk_st (limit s) c (disp s) (work s) (jobs s) (completed s) (wakes s).
 Definition add_worker (s : st) (p : wpc) : st :=
-  mk_st (limit s) (counter s) (disp s) (work s ++ [p]) (jobs s) (completed s).
+  mk_st (limit s) (counter s) (disp s) (work s ++ [p]) (jobs s) (completed s) (wakes s).
 Definition add_job (s : st) (x : job) : st :=
-  mk_st (limit s) (counter s) (disp s) (work s) (jobs s ++ [x]) (completed s).
+  mk_st (limit s) (counter s) (disp s) (work s) (jobs s ++ [x]) (completed s) (wakes s).
 Definition set_jobs (s : st) (l : list job) : st :=
-  mk_st (limit s) (counter s) (disp s) (work s) l (completed s).
+  mk_st (limit s) (counter s) (disp s) (work s) l (completed s) (wakes s).
+Definition add_wake (s : st) (x : nat * nat) : st :=
+  mk_st (limit s) (counter s) (disp s) (work s) (jobs s) (completed s) (wakes s ++ [x]).
 Definition add_completed (s : st) (x : nat * nat * bool) : st :=
-  mk_st (limit s) (counter s) (disp s) (work s) (jobs s) (completed s ++ [x]).
+  mk_st (limit s) (counter s) (disp s) (work s) (jobs s) (completed s ++ [x]) (wakes s).
 
 Definition is_recv (p : wpc) : bool := match p with WRecv => true | _ => false end.
 Definition is_sendwait (p : dpc) : bool := match p with DSendWait _ => true | _ => false end.
@@ -163,9 +169,16 @@ Definition step_common (s : st) (e : ev) : option st :=
     match nth_error (work s) w with
     | Some (WRunning j) =>
       match nth_error (jobs s) j with
-      | Some x => Some (add_completed (set_w s w WLoop) (owner x, j, panics x))
+      | Some x => Some (add_completed (set_w s w (WSent (owner x) j)) (owner x, j, panics x))
       | None => None
       end
+    | _ => None
+    end
+  | EWake w =>
+    (* the closure built by push_blocking: `completed.send(entry); waker.wake();` —
+       nothing between the two, no condition on the wake *)
+    match nth_error (work s) w with
+    | Some (WSent d j) => Some (add_wake (set_w s w WLoop) (d, j))
     | _ => None
     end
   | ETimeout w =>
@@ -303,6 +316,11 @@ Definition reserved_d (p : dpc) : nat := match p with DSpawn _ => 1 | _ => 0 end
 Definition alive (s : st) : nat := sumf alive_w (work s).       (* pool threads that exist *)
 Definition running (s : st) : nat := sumf running_w (work s).   (* pool threads inside a job *)
 Definition reserved (s : st) : nat := sumf reserved_d (disp s).
+
+Definition sw (j : nat) (p : wpc) : nat := match p with WSent _ k => b2n (k =? j) | _ => 0 end.
+Definition sending (s : st) (j : nat) : nat := sumf (sw j) (work s).      (* sent, wake still to come *)
+Definition is_wake (j : nat) (x : nat * nat) : nat := b2n (snd x =? j).
+Definition woken (s : st) (j : nat) : nat := sumf (is_wake j) (wakes s).
 
 Definition all_exited (s : st) : bool := forallb (fun p => match p with WExited => true | _ => false end) (work s).
 Definition all_idle (s : st) : bool := forallb (fun p => match p with DIdle => true | _ => false end) (disp s).
